@@ -10,7 +10,7 @@ import P2sh.Spec.Builtins
 
 `float(str(x)) == x` depends on Rust's shortest round-trip float printing/parsing, which is
 not modelled: it is exercised on the implementation only (labelled as a test in the evidence).
-`int(str(n)) == n` is the open obligation `int_str` (decimal printing/parsing by induction on digits).
+`int(str(n)) == n` is `int_str` / `int_str_call` (decimal printing/parsing, by induction on the digits).
 -/
 namespace P2sh.Props.C11
 open P2sh P2sh.Builtins
@@ -85,5 +85,121 @@ theorem wrong_arity_is_error (name : String)
   simp only [List.mem_cons, List.mem_nil_iff, or_false] at hn
   rcases hn with rfl | rfl | rfl | rfl | rfl | rfl | rfl | rfl | rfl | rfl | rfl | rfl | rfl | rfl | rfl | rfl | rfl <;>
     exact hk _
+
+/-! ## `int(str(n)) == n`: the decimal parser inverts the decimal printer -/
+
+/-- one step of the digit fold of `parseDigits` -/
+def digitStep (acc : Nat) (c : Char) : Option Nat :=
+  if c.isDigit then some (acc * 10 + (c.toNat - 48)) else none
+
+theorem digitChar_fin : ∀ d : Fin 10, (digitChar d.val).isDigit = true ∧ (digitChar d.val).toNat - 48 = d.val ∧
+    digitChar d.val ≠ '-' ∧ digitChar d.val ≠ '+' := by decide
+
+theorem digitStep_digitChar (acc d : Nat) (h : d < 10) : digitStep acc (digitChar d) = some (acc * 10 + d) := by
+  have := digitChar_fin ⟨d, h⟩
+  simp only [digitStep, this.1, if_true, this.2.1]
+
+theorem natDigits_fold (fuel : Nat) : ∀ n, n < fuel → (natDigits fuel n).foldlM digitStep 0 = some n := by
+  induction fuel with
+  | zero => intro n h; omega
+  | succ fuel ih =>
+    intro n h
+    unfold natDigits
+    split
+    · rename_i h10
+      simp [List.foldlM, digitStep_digitChar 0 n h10]
+    · rename_i h10
+      rw [List.foldlM_append, ih (n / 10) (by omega)]
+      simp [List.foldlM, digitStep_digitChar (n / 10) (n % 10) (by omega)]
+      omega
+
+theorem natDigits_mem (fuel : Nat) : ∀ n, ∀ c ∈ natDigits fuel n, c ≠ '-' ∧ c ≠ '+' := by
+  induction fuel with
+  | zero => intro n c h; simp [natDigits] at h
+  | succ fuel ih =>
+    intro n c h
+    unfold natDigits at h
+    split at h
+    · rename_i h10
+      rw [List.mem_singleton] at h; subst h
+      exact (digitChar_fin ⟨n, h10⟩).2.2
+    · rw [List.mem_append, List.mem_singleton] at h
+      rcases h with h | h
+      · exact ih _ c h
+      · subst h; exact (digitChar_fin ⟨n % 10, by omega⟩).2.2
+
+theorem natDigits_ne_nil (fuel n : Nat) : natDigits (fuel + 1) n ≠ [] := by
+  unfold natDigits
+  split <;> simp
+
+theorem parseDigits_natDigits (n : Nat) : parseDigits (natDigits (n + 1) n) = some n := by
+  have h := natDigits_fold (n + 1) n (by omega)
+  have hne := natDigits_ne_nil n n
+  unfold parseDigits
+  split
+  · rename_i e; exact absurd e hne
+  · exact h
+
+/-- the sign split of `parseI64` -/
+def signSplit (cs : List Char) : Bool × List Char :=
+  match cs with
+  | '-' :: r => (true, r)
+  | '+' :: r => (false, r)
+  | r => (false, r)
+
+theorem parseI64_eq (s : String) : parseI64 s =
+    match parseDigits (signSplit s.toList).2 with
+    | none => none
+    | some n =>
+      let v : Int := if (signSplit s.toList).1 then - (n : Int) else n
+      if -9223372036854775808 ≤ v ∧ v ≤ 9223372036854775807 then some (Int64.ofInt v) else none := rfl
+
+/-- on the digits of a natural number no sign is consumed -/
+theorem signSplit_natDigits (n : Nat) : signSplit (natDigits (n + 1) n) = (false, natDigits (n + 1) n) := by
+  have hm := natDigits_mem (n + 1) n
+  unfold signSplit
+  split
+  · rename_i r e; exact absurd rfl (hm '-' (by rw [e]; exact List.mem_cons_self)).1
+  · rename_i r e; exact absurd rfl (hm '+' (by rw [e]; exact List.mem_cons_self)).2
+  · rfl
+
+theorem parseI64_showInt (i : Int) (hlo : -9223372036854775808 ≤ i) (hhi : i ≤ 9223372036854775807) :
+    parseI64 (showInt i) = some (Int64.ofInt i) := by
+  rw [parseI64_eq]
+  by_cases hneg : i < 0
+  · have hs : showInt i = "-" ++ showNat i.natAbs := by simp [showInt, hneg]
+    rw [hs]
+    have e : ("-" ++ showNat i.natAbs).toList = '-' :: natDigits (i.natAbs + 1) i.natAbs := by
+      simp [showNat, String.toList_append]
+    have hv : -(i.natAbs : Int) = i := by omega
+    simp only [e, signSplit, parseDigits_natDigits, if_true, hv]
+    simp [hlo, hhi]
+  · have hs : showInt i = showNat i.toNat := by simp [showInt, hneg]
+    rw [hs]
+    have e : (showNat i.toNat).toList = natDigits (i.toNat + 1) i.toNat := by simp [showNat]
+    have hv : (i.toNat : Int) = i := by omega
+    simp only [e, signSplit_natDigits, parseDigits_natDigits, Bool.false_eq_true, if_false, hv]
+    simp [hlo, hhi]
+
+/-- **`int(str(n)) == n`**: the integer parser inverts the integer printer, for every `i64` -/
+theorem int_str (n : Int64) : parseI64 (showI64 n) = some n := by
+  have h1 := Int64.minValue_le_toInt n
+  have h2 := Int64.toInt_le n
+  have := parseI64_showInt n.toInt h1 h2
+  rw [Int64.ofInt_toInt] at this
+  exact this
+
+example : parseI64 (showI64 Int64.minValue) = some Int64.minValue := int_str _
+example : showI64 (-9223372036854775808) = "-9223372036854775808" := by decide +kernel
+
+/-- `int(str(n)) == n` through the builtins' dispatch -/
+theorem int_str_call (n : Int64) :
+    (match call "str" [.int n] with
+     | .ok s => call "int" [s]
+     | r => r) = .ok (.int n) := by
+  simp only [call, arity1, display, int_str]
+
+example : (match call "str" [.int (-42)] with | .ok s => call "int" [s] | r => r) = .ok (.int (-42)) :=
+  int_str_call _
 
 end P2sh.Props.C11
